@@ -29,7 +29,8 @@ Variable bits : Z.
 Hypothesis Hbits : 8 <= bits <= 64.
 Variable redk : Z -> Z -> option Z.
 Variable stw : Z -> Z.
-Hypothesis Hredk : forall v p, 0 <= v < 2 ^ bits -> 0 < p < 2 ^ bits -> redk v p = Some (v mod p).
+Variable Rv : Z -> Prop.                                    (* what the source values are: limbs for the list setter, any integer for set_mpz *)
+Hypothesis Hredk : forall v p, Rv v -> 0 < p < 2 ^ bits -> redk v p = Some (v mod p).
 Hypothesis Hstw : forall c, 0 <= c < 2 ^ bits -> stw c = c.
 Variables (n nm : nat) (P vals data0 : list Z) (f l : nat) (reduce : bool) (fuel : nat).
 Hypothesis Hfl : (f <= l <= length vals)%nat.
@@ -41,7 +42,8 @@ Hypothesis Hl61 : Z.of_nat (length vals) < 2 ^ 61.
 Hypothesis Hfuel : (n < fuel)%nat.
 Hypothesis HPl : (nm <= length P)%nat.
 Hypothesis HPr : Forall (fun p => 0 < p < 2 ^ bits) (firstn nm P).
-Hypothesis Hvr : Forall (fun v => 0 <= v < 2 ^ bits) vals.
+Hypothesis Hvr : Forall Rv vals.
+Hypothesis Hnored : reduce = false -> forall v, Rv v -> 0 <= v < 2 ^ bits.     (* values stored without reduction are limbs *)
 
 Definition sz := (l - f)%nat.
 Definition vs := firstn sz (skipn f vals).
@@ -58,8 +60,8 @@ Proof. unfold vs. rewrite firstn_length, skipn_length. unfold sz. lia. Qed.
 Lemma vs_nth i : (i < sz)%nat -> nth i vs 0 = nth (f + i) vals 0.
 Proof. intros Hi. unfold vs. rewrite Layer.nth_firstn. assert (E : (i <? sz)%nat = true) by (apply Nat.ltb_lt; exact Hi). rewrite E. apply Layer.nth_skipn. Qed.
 Lemma R_len : length R = (nm * n)%nat. Proof. unfold R. apply slices_length. Qed.
-Lemma vals_rng i : (i < length vals)%nat -> 0 <= nth i vals 0 < 2 ^ bits.
-Proof. intros Hi. exact (Forall_nth_R (fun v => 0 <= v < 2 ^ bits) vals i Hvr Hi). Qed.
+Lemma vals_rng i : (i < length vals)%nat -> Rv (nth i vals 0).
+Proof. intros Hi. exact (Forall_nth_R Rv vals i Hvr Hi). Qed.
 Lemma P_rng cm : (cm < nm)%nat -> 0 < nth cm P 0 < 2 ^ bits.
 Proof. intros Hc. exact (nth_firstn_in' (fun p => 0 < p < 2 ^ bits) nm P cm HPr HPl Hc). Qed.
 
@@ -103,12 +105,12 @@ Proof.
     + apply andb_true_iff. split; apply Z.ltb_lt; lia.
     + assert (Hk : (cm * n + i < nm * n)%nat) by nia.
       rewrite ld_some by lia. rewrite Nat2Z.id.
-      pose proof (vals_rng (v0 cm + i) ltac:(lia)) as Rv. pose proof (P_rng cm Hc) as Rp.
+      pose proof (vals_rng (v0 cm + i) ltac:(lia)) as HRv. pose proof (P_rng cm Hc) as Rp.
       assert (Ec : (if reduce then bind (Some (nth (v0 cm + i) vals 0)) (fun ld_7 => redk ld_7 (nth cm P 0)) else bind (Some (nth (v0 cm + i) vals 0)) (fun ld_8 => Some ld_8)) = Some (F (cm * n + i))).
-      { rewrite F_copy by lia. unfold red, Pf. destruct reduce; cbn [bind]; [apply Hredk; assumption | reflexivity]. }
+      { rewrite F_copy by lia. unfold red, Pf. destruct (Bool.bool_dec reduce true) as [Er|Er]; [rewrite Er | apply Bool.not_true_is_false in Er; rewrite Er]; cbn [bind]; [apply Hredk; assumption | reflexivity]. }
       rewrite Ec. cbn [bind].
       assert (RF : 0 <= F (cm * n + i) < 2 ^ bits).
-      { rewrite F_copy by lia. unfold red, Pf. destruct reduce; [|exact Rv]. pose proof (Z.mod_pos_bound (nth (v0 cm + i) vals 0) (nth cm P 0) ltac:(lia)). lia. }
+      { rewrite F_copy by lia. unfold red, Pf. destruct (Bool.bool_dec reduce true) as [Er|Er]; [rewrite Er | apply Bool.not_true_is_false in Er; rewrite Er; exact (Hnored Er _ HRv)]. pose proof (Z.mod_pos_bound (nth (v0 cm + i) vals 0) (nth cm P 0) ltac:(lia)). lia. }
       rewrite Hstw by exact RF. rewrite st_some by (rewrite filled_length by lia; lia). cbn [bind]. rewrite Nat2Z.id.
       rewrite filled_step by lia. cbv zeta. rewrite uw_small by lia. f_equal. f_equal; [f_equal; [f_equal; [f_equal; lia | lia] | lia] | lia].
   - unfold Q1. cbv beta iota. apply andb_false_iff. unfold cpy, v0 in *. destruct full eqn:E.
@@ -182,6 +184,22 @@ Proof.
 Qed.
 
 (* both cases together: the translated setter is Setters.set_list *)
+Theorem setter_is_model_gen bits redk stw (Rv : Z -> Prop) (n nm : nat) (P vals data0 : list Z) (f l : nat) reduce fuel : 8 <= bits <= 64 ->
+  (forall v p, Rv v -> 0 < p < 2 ^ bits -> redk v p = Some (v mod p)) -> (forall c, 0 <= c < 2 ^ bits -> stw c = c) ->
+  (f <= l <= length vals)%nat -> length data0 = (nm * n)%nat -> Z.of_nat (nm * n) < 2 ^ 61 -> Z.of_nat n < 2 ^ 61 -> Z.of_nat nm < 2 ^ 61 -> Z.of_nat (length vals) < 2 ^ 61 ->
+  (n < fuel)%nat -> (nm <= length P)%nat -> Forall (fun p => 0 < p < 2 ^ bits) (firstn nm P) -> Forall Rv vals -> (reduce = false -> forall v, Rv v -> 0 <= v < 2 ^ bits) ->
+  option_map (fun s : SS => fst (fst s)) (setl_sh redk stw fuel (Z.of_nat n) data0 vals (Z.of_nat f) (Z.of_nat l) reduce (Z.of_nat nm) P)
+  = set_list n nm (fun cm => nth cm P 0) reduce (firstn (l - f) (skipn f vals)) data0.
+Proof.
+  intros Hb Hr Hs Hfl Hd Hsm Hn Hnm Hl Hfu HPl HPr Hvr Hnr. unfold set_list.
+  assert (Elen : length (firstn (l - f) (skipn f vals)) = (l - f)%nat) by (rewrite firstn_length, skipn_length; lia). rewrite Elen.
+  destruct ((n <? l - f)%nat && negb (l - f =? n * nm)%nat) eqn:E.
+  - apply andb_true_iff in E. destruct E as [E1 E2]. apply Nat.ltb_lt in E1. apply negb_true_iff in E2. apply Nat.eqb_neq in E2.
+    rewrite setter_throws by assumption. reflexivity.
+  - assert (Hnt : (l - f <= n)%nat \/ (l - f)%nat = (n * nm)%nat).
+    { apply andb_false_iff in E. destruct E as [E|E]; [left; apply Nat.ltb_ge; exact E | right; apply negb_false_iff in E; apply Nat.eqb_eq; exact E]. }
+    rewrite (setter_ok bits Hb redk stw Rv Hr Hs n nm P vals data0 f l reduce fuel) by assumption. reflexivity.
+Qed.
 Theorem setter_is_model bits redk stw (n nm : nat) (P vals data0 : list Z) (f l : nat) reduce fuel : 8 <= bits <= 64 ->
   (forall v p, 0 <= v < 2 ^ bits -> 0 < p < 2 ^ bits -> redk v p = Some (v mod p)) -> (forall c, 0 <= c < 2 ^ bits -> stw c = c) ->
   (f <= l <= length vals)%nat -> length data0 = (nm * n)%nat -> Z.of_nat (nm * n) < 2 ^ 61 -> Z.of_nat n < 2 ^ 61 -> Z.of_nat nm < 2 ^ 61 -> Z.of_nat (length vals) < 2 ^ 61 ->
@@ -189,12 +207,6 @@ Theorem setter_is_model bits redk stw (n nm : nat) (P vals data0 : list Z) (f l 
   option_map (fun s : SS => fst (fst s)) (setl_sh redk stw fuel (Z.of_nat n) data0 vals (Z.of_nat f) (Z.of_nat l) reduce (Z.of_nat nm) P)
   = set_list n nm (fun cm => nth cm P 0) reduce (firstn (l - f) (skipn f vals)) data0.
 Proof.
-  intros Hb Hr Hs Hfl Hd Hsm Hn Hnm Hl Hfu HPl HPr Hvr. unfold set_list.
-  assert (Elen : length (firstn (l - f) (skipn f vals)) = (l - f)%nat) by (rewrite firstn_length, skipn_length; lia). rewrite Elen.
-  destruct ((n <? l - f)%nat && negb (l - f =? n * nm)%nat) eqn:E.
-  - apply andb_true_iff in E. destruct E as [E1 E2]. apply Nat.ltb_lt in E1. apply negb_true_iff in E2. apply Nat.eqb_neq in E2.
-    rewrite setter_throws by assumption. reflexivity.
-  - assert (Hnt : (l - f <= n)%nat \/ (l - f)%nat = (n * nm)%nat).
-    { apply andb_false_iff in E. destruct E as [E|E]; [left; apply Nat.ltb_ge; exact E | right; apply negb_false_iff in E; apply Nat.eqb_eq; exact E]. }
-    rewrite (setter_ok bits Hb redk stw Hr Hs n nm P vals data0 f l reduce fuel) by assumption. reflexivity.
+  intros Hb Hr Hs Hfl Hd Hsm Hn Hnm Hl Hfu HPl HPr Hvr.
+  apply (setter_is_model_gen bits redk stw (fun v => 0 <= v < 2 ^ bits)); try assumption. intros _ v Hv. exact Hv.
 Qed.
